@@ -122,7 +122,8 @@ def _dotted_dict_to_nested_dicts(dotted_dict, delimiter_nested="."):
 
 class _hashable_dict(dict):
     def __hash__(self):
-        return hash(tuple(sorted(self.items())))
+        # The values may be (nested) lists and dicts themselves.
+        return hash(tuple(sorted((k, _to_hashable(v)) for k, v in self.items())))
 
 
 def _to_hashable(obj):
